@@ -6,6 +6,7 @@
    The model computes the conversion itself from ITS file contents. -/
 import GoSnaps.Driver
 import GoSnaps.Json
+import GoSnaps.JsonPath
 namespace GoSnaps
 
 def crlfAll (t : Text) : Text := t.flatMap (fun c => if c = nl then [cr, nl] else [c])
@@ -27,8 +28,94 @@ def jsonfmtOp (doc sk ind width : String) : Option String :=
     some ("jsonfmt valid=" ++ (if v then "1" else "0") ++ " parse=" ++ (if p then "1" else "0") ++ " out=" ++ hexOf out)
   | _, _, _ => none
 
+/-! `jsonpath <o0|o1>[a] <hex doc> (<hex path> <value> <hex enc>)+` (`o1` = `Optimistic: true`, go-snaps' setting;
+`a` asks the harness to cross-check match.Any / match.Custom): the JSON lens model on its own (C15 / C16,
+lean/GoSnaps/JsonPath.lean), one or more steps applied left to right, each step as go-snaps' matchers
+do it: `gjson.GetBytes(doc, path)`, and — only when the path exists and a value is given —
+`sjson.SetBytesOptions(doc, path, value, {Optimistic: true})`, whose result is the next step's document.
+`<value>` is `-` (look-up only), `s:<hex>` (a Go string: the model computes sjson's encoding itself,
+`JsonPath.stringify`) or `r:<hex>` (any other Go value: `<hex enc>` is the JSON text sjson wrote for it,
+computed by the harness with the library and appended to the line handed to the model).
+Answer per step: `exists= idx=<Result.Index | Result.Indexes> get=<Result.Raw> enc=<value text> set=<document
+after the set> valid=<gjson.Valid of it> get2=<Raw of the same path in it> any=1`.  A step outside
+the model (path outside the fragment, sjson would create members, …) makes the whole line
+`skipline cover=0 reason=…`: it is not compared, and counted. -/
+
+def natList (l : List Nat) : String :=
+  if l.isEmpty then "-" else ",".intercalate (l.map toString)
+
+/-- one step on the document `doc` with tree `d`; `Except` carries the reason the model does not
+cover it; the result is the answer, the next document and its tree -/
+def jsonpathStep (opt : Bool) (doc : Text) (d : Json.JV) (path value enc : String) : Except String (String × Text × Json.JV) :=
+  match unhex path, unhex enc with
+  | some ptxt, some encB =>
+    let valText : Except String (Option Text) :=
+      if value = "-" then .ok none
+      else if value.startsWith "s:" then
+        match unhex (value.drop 2).toString with
+        | some s => .ok (some (JsonPath.stringify s))
+        | none => .error "bad-value"
+      else if value.startsWith "r:" then .ok (some encB)
+      else .error "bad-value"
+    match valText, JsonPath.parsePath ptxt with
+    | .error e, _ => .error e
+    | .ok _, none => .error "path"
+    | .ok vt, some p =>
+      if !JsonPath.covers d p then .error "gjson-quirk"
+      else
+        match JsonPath.getB doc d p with
+        | none => .error "get"
+        | some none =>
+          .ok ("exists=0 idx=- get=- enc=" ++ hexOf (vt.getD []) ++ " set=- valid=- get2=- any=1", doc, d)
+        | some (some (raw, idx)) =>
+          match vt with
+          | none =>
+            .ok ("exists=1 idx=" ++ natList idx ++ " get=" ++ hexOf raw ++ " enc=- set=- valid=- get2=- any=1", doc, d)
+          | some v =>
+            if (Json.parse v).isNone then .error "value"
+            else
+              match JsonPath.setB opt doc d p v with
+              | none => .error "create"
+              | some out =>
+                match Json.parse out with
+                | none => .error "set-result-does-not-parse"
+                | some d' =>
+                  let g2 := if !JsonPath.covers d' p then "!outside" else
+                    match JsonPath.getB out d' p with
+                    | some (some (r2, _)) => hexOf r2
+                    | some none => "!missing"
+                    | none => "!outside"
+                  .ok ("exists=1 idx=" ++ natList idx ++ " get=" ++ hexOf raw ++ " enc=" ++ hexOf v ++ " set=" ++ hexOf out ++
+                    " valid=" ++ (if Json.jsonValid out then "1" else "0") ++ " get2=" ++ g2 ++ " any=1", out, d')
+  | _, _ => .error "bad-hex"
+
+def jsonpathSteps (opt : Bool) : Nat → Text → Json.JV → List String → String → Except String String
+  | _, _, _, [], acc => .ok acc
+  | k, doc, d, path :: value :: enc :: rest, acc =>
+    match jsonpathStep opt doc d path value enc with
+    | .error e => .error ("reason=" ++ e ++ " step=" ++ toString k)
+    | .ok (s, doc', d') => jsonpathSteps opt (k + 1) doc' d' rest (acc ++ " " ++ s)
+  | _, _, _, _, _ => .error "reason=bad-op step=0"
+
+def jsonpathOp (o doc : String) (steps : List String) : Option String :=
+  match unhex doc with
+  | some doc =>
+    if steps.isEmpty || !(o.startsWith "o0" || o.startsWith "o1") then none
+    else
+      match Json.parse doc with
+      | none => some "skipline cover=0 reason=doc step=1"
+      | some d =>
+        match jsonpathSteps (o.startsWith "o1") 1 doc d steps "jsonpath" with
+        | .ok r => some r
+        | .error e => some ("skipline cover=0 " ++ e)
+  | none => none
+
 def stepX (s : DState) (line : String) : DState × Option String :=
   match (line.splitOn " ").filter (· ≠ "") with
+  | "jsonpath" :: o :: doc :: steps =>
+    match jsonpathOp o doc steps with
+    | some r => (s, some r)
+    | none => bad s line
   | ["jsonfmt", doc, sk, ind, width] =>
     match jsonfmtOp doc sk ind width with
     | some r => (s, some r)
@@ -57,5 +144,13 @@ theorem stepX_jsonfmt_state (s : DState) (line doc sk ind width : String)
   rw [h]
   simp only
   cases jsonfmtOp doc sk ind width <;> rfl
+
+/-- `stepX` never changes the state on a `jsonpath` line -/
+theorem stepX_jsonpath_state (s : DState) (line o doc : String) (steps : List String)
+    (h : (line.splitOn " ").filter (· ≠ "") = "jsonpath" :: o :: doc :: steps) : (stepX s line).1 = s := by
+  unfold stepX
+  rw [h]
+  simp only
+  cases jsonpathOp o doc steps <;> rfl
 
 end GoSnaps
